@@ -126,36 +126,42 @@ Fixpoint scan (idxs : list nat) (st : state) (aevs : list (list event)) : state 
    defective variant into the very same loop) *)
 Definition shutdown_fn := list nat -> state -> list (list event) -> state * list effect * outcome.
 
-Fixpoint drain_gen (sd : shutdown_fn) (fuel : nat) (c : cfg) (st : state) (devs aevs : list (list event))
-         (reloaded : list nat) : state * list effect * outcome :=
+(* one iteration of `while not self.action_queue.empty():` - either goes on (new loop state, effects) or
+   leaves start()'s drain (state, effects, outcome; outcome Cont = queue found empty) *)
+Definition loop_state := (state * list (list event) * list nat)%type.   (* state, te_drain left, reloaded_workers *)
+Definition body (sd : shutdown_fn) (c : cfg) (aevs : list (list event)) (ls : loop_state)
+  : (loop_state * list effect) + (state * list effect * outcome) :=
+  let '(st, devs, reloaded) := ls in
+  let (ev, devs') := pop devs in
+  let st1 := deliver st ev in
+  match queue st1 with
+  | [] => inr (st1, [], Cont)
+  | a :: q =>
+      let st2 := set_queue st1 q in
+      match a with
+      | ReloadAll =>
+          inl ((enq st2 (map (fun i => ReloadOne i true) (seq 0 (length (workers st2)))), devs', reloaded), [Got a])
+      | ReloadOne i ra =>
+          let counted := andb (negb ra) (1 <=? max_fails c)%Z in
+          let st3 := if counted then set_restarts st2 (restarts st2 + 1)%Z else st2 in
+          if andb counted (max_fails c <=? restarts st3)%Z
+          then inr (st3, [Got a; EExit ExitFail], Exited ExitFail)
+          else if existsb (Nat.eqb i) reloaded
+               then inl ((st3, devs', reloaded), [Got a])
+               else let (st4, eh) := handle_reload i st3 in inl ((st4, devs', i :: reloaded), Got a :: eh)
+      | Shutdown =>
+          let '(s, e, o) := sd (seq 0 (length (workers st2))) st2 aevs in inr (s, Got a :: e, o)
+      end
+  end.
+
+Fixpoint drain_gen (sd : shutdown_fn) (fuel : nat) (c : cfg) (aevs : list (list event)) (ls : loop_state)
+  : state * list effect * outcome :=
   match fuel with
-  | O => (st, [], OutOfFuel)
+  | O => (fst (fst ls), [], OutOfFuel)
   | S f =>
-      let (ev, devs') := pop devs in
-      let st1 := deliver st ev in
-      match queue st1 with
-      | [] => (st1, [], Cont)
-      | a :: q =>
-          let st2 := set_queue st1 q in
-          match a with
-          | ReloadAll =>
-              let '(s, e, o) :=
-                drain_gen sd f c (enq st2 (map (fun i => ReloadOne i true) (seq 0 (length (workers st2)))))
-                          devs' aevs reloaded in
-              (s, Got a :: e, o)
-          | ReloadOne i ra =>
-              let counted := andb (negb ra) (1 <=? max_fails c)%Z in
-              let st3 := if counted then set_restarts st2 (restarts st2 + 1)%Z else st2 in
-              if andb counted (max_fails c <=? restarts st3)%Z
-              then (st3, [Got a; EExit ExitFail], Exited ExitFail)
-              else if existsb (Nat.eqb i) reloaded
-                   then let '(s, e, o) := drain_gen sd f c st3 devs' aevs reloaded in (s, Got a :: e, o)
-                   else let (st4, eh) := handle_reload i st3 in
-                        let '(s, e, o) := drain_gen sd f c st4 devs' aevs (i :: reloaded) in
-                        (s, Got a :: eh ++ e, o)
-          | Shutdown =>
-              let '(s, e, o) := sd (seq 0 (length (workers st2))) st2 aevs in (s, Got a :: e, o)
-          end
+      match body sd c aevs ls with
+      | inl (ls', e) => let '(s, e', o) := drain_gen sd f c aevs ls' in (s, e ++ e', o)
+      | inr r => r
       end
   end.
 
@@ -171,7 +177,7 @@ Definition fuel_of (st : state) (devs : list (list event)) : nat :=
 
 Definition tick_gen (sd : shutdown_fn) (c : cfg) (st : state) (te : tick_events) : state * list effect * outcome :=
   let st1 := deliver st (te_sleep te) in
-  let '(st2, effs, o) := drain_gen sd (fuel_of st1 (te_drain te)) c st1 (te_drain te) (te_alive te) [] in
+  let '(st2, effs, o) := drain_gen sd (fuel_of st1 (te_drain te)) c (te_alive te) (st1, te_drain te, []) in
   match o with
   | Cont => (scan (seq 0 (length (workers st2))) st2 (te_alive te), effs, Cont)
   | _ => (st2, effs, o)
